@@ -229,14 +229,17 @@ func enumerate(c *core.Ctx, si shapeInfo) []Scn {
 		out = append(out, s)
 	}
 	th := c.Thorough()
+	alone := !si.sh.FailsAlone // runs whose model outcome is "returns nil" need a shape that succeeds when left alone
 	// no stall, nothing fires / fires after the return
-	add("never", "cancel", "std", 0, 0, nil)
-	add("never", "background", "std", 0, 0, nil)
-	add("never", "deadline", "std", 0, 0, nil)
-	add("after_return", "cancel", "std", 0, 0, nil)
-	add("after_return", "cancel", "probe", 0, 0, nil)
-	if th {
-		add("after_return", "deadline", "std", 0, 0, func(s *Scn) { s.DeadlineMs = 80 })
+	if alone {
+		add("never", "cancel", "std", 0, 0, nil)
+		add("never", "background", "std", 0, 0, nil)
+		add("never", "deadline", "std", 0, 0, nil)
+		add("after_return", "cancel", "std", 0, 0, nil)
+		add("after_return", "cancel", "probe", 0, 0, nil)
+		if th {
+			add("after_return", "deadline", "std", 0, 0, func(s *Scn) { s.DeadlineMs = 80 })
+		}
 	}
 	// fired before the call
 	add("before_call", "cancel", "std", 0, 0, nil)
@@ -432,7 +435,8 @@ func run(c *core.Ctx) {
 	c.Level = "fault_enumeration"
 	c.Assume("a stalled peer is realised at the connection: the k-th Read/Write of the call blocks until Close and then fails with net.ErrClosed, as a real socket does")
 	c.Assume("package context registers AfterFunc on a foreign context through its AfterFunc(func()) func() bool method (Go >= 1.21); used only to place a cancellation between two steps")
-	c.Assume("cedar reads exact sizes with io.ReadFull, so one readWithContext is one connection-level step (not true under TLS: no SSL shape)")
+	c.Assume("cedar reads exact sizes with io.ReadFull, so one readWithContext is one connection-level step; this also holds for the SSL method, whose TLS records travel INSIDE cedar messages (CEDARTLSConnection), never directly on the socket")
+	c.Assume("hs_ssl: two cedar endpoints cannot complete an SSL handshake (the server role reports status 2 instead of HOLDING at the completion check), so the shape covers the status exchange, the whole TLS state machine and the completion check, not the session-key / SciToken exchanges")
 	// cedar's FS authentication prints warnings to stdout with fmt.Printf
 	if devnull, err := os.OpenFile(os.DevNull, os.O_WRONLY, 0); err == nil {
 		stdout := os.Stdout
